@@ -77,49 +77,50 @@ theorem run_prefix {σ : Script} {k : Nat} (hk : FirstStop σ k) {st0 : Core} (h
   obtain ⟨_, hsim, hne⟩ := hx
   have hsim := hsim (by rw [h0]; exact Nat.zero_le _)
   rcases x2 with ⟨s2, u | _⟩
-  swap
+  · cases u
+    have hE : (finishRun allCont (s2, Res.ok ())).events = s2.events ++ [Event.finish (byteCount s2) s2.binaryByteOffset] := by
+      simp [finishRun, finish_eq, Run.events]
+    have hR0 : (finishRun allCont (s2, Res.ok ())).result = .ok () := by
+      simp [finishRun, finish_eq, allCont]
+    refine ⟨hR0, ?_, ?_⟩
+    · intro hlt
+      rw [hE] at hlt ⊢
+      rcases hsim with ⟨rfl, hlen⟩ | ⟨hlen, hpre, hres⟩
+      · simp at hlt hlen; omega
+      · rcases x1 with ⟨s1, r1⟩
+        simp only at hlen hpre hres
+        have htake : s1.events = (s2.events ++ [Event.finish (byteCount s2) s2.binaryByteOffset]).take (k + 1) := by
+          have h1 := List.prefix_iff_eq_take.mp hpre
+          rw [hlen] at h1
+          have hle : k + 1 ≤ s2.events.length := by rw [← hlen]; exact hpre.length_le
+          rw [List.take_append_of_le_length hle]; exact h1
+        subst hres
+        cases hσ : σ k with
+        | cont => exact absurd hσ hk.at_
+        | stop =>
+          refine ⟨⟨byteCount s1, s1.binaryByteOffset, ?_⟩, ?_⟩
+          · simp [finishRun, haltRes, finish_eq, Run.events, htake]
+          · simp [finishRun, haltRes, finish_eq, hlen]
+        | err =>
+          refine ⟨⟨0, none, ?_⟩, ?_⟩
+          · simp [finishRun, haltRes, Run.events, htake]
+          · simp [finishRun, haltRes]
+    · intro hle
+      rw [hE] at hle ⊢
+      rcases hsim with ⟨rfl, hlen⟩ | ⟨hlen, hpre, hres⟩
+      · simp only at hlen
+        constructor
+        · simp [finishRun, finish_eq, Run.events]
+        · simp only [finishRun, finish_eq, List.length_append, List.length_cons, List.length_nil]
+          by_cases hlt : s2.events.length < k
+          · rw [hk.pre _ hlt]; simp; omega
+          · have : s2.events.length = k := by omega
+            rw [this]
+            cases hσ : σ k <;> simp
+      · have := hpre.length_le
+        simp only at this hlen
+        simp at hle; omega
+
   · exact absurd rfl hne
-  cases u
-  have hE : (finishRun allCont (s2, Res.ok ())).events = s2.events ++ [Event.finish (byteCount s2) s2.binaryByteOffset] := by
-    simp [finishRun, finish_eq, Run.events]
-  have hR0 : (finishRun allCont (s2, Res.ok ())).result = .ok () := by
-    simp [finishRun, finish_eq, allCont]
-  refine ⟨hR0, ?_, ?_⟩
-  · intro hlt
-    rw [hE] at hlt ⊢
-    rcases hsim with ⟨rfl, hlen⟩ | ⟨hlen, hpre, hres⟩
-    · simp at hlt hlen; omega
-    · rcases x1 with ⟨s1, r1⟩
-      simp only at hlen hpre hres
-      have htake : s1.events = (s2.events ++ [Event.finish (byteCount s2) s2.binaryByteOffset]).take (k + 1) := by
-        have h1 := List.prefix_iff_eq_take.mp hpre
-        rw [hlen] at h1
-        have hle : k + 1 ≤ s2.events.length := by rw [← hlen]; exact hpre.length_le
-        rw [List.take_append_of_le_length hle]; exact h1
-      subst hres
-      cases hσ : σ k with
-      | cont => exact absurd hσ hk.at_
-      | stop =>
-        refine ⟨⟨byteCount s1, s1.binaryByteOffset, ?_⟩, ?_⟩
-        · simp [finishRun, haltRes, finish_eq, Run.events, htake]
-        · simp [finishRun, haltRes, finish_eq, hlen]
-      | err =>
-        refine ⟨⟨0, none, ?_⟩, ?_⟩
-        · simp [finishRun, haltRes, Run.events, htake]
-        · simp [finishRun, haltRes]
-  · intro hle
-    rw [hE] at hle ⊢
-    rcases hsim with ⟨rfl, hlen⟩ | ⟨hlen, hpre, hres⟩
-    · simp only at hlen
-      constructor
-      · simp [finishRun, finish_eq, Run.events]
-      · simp only [finishRun, finish_eq, List.length_append, List.length_cons, List.length_nil]
-        by_cases hlt : s2.events.length < k
-        · rw [hk.pre _ hlt]; simp; omega
-        · have : s2.events.length = k := by omega
-          rw [this]
-          cases hσ : σ k <;> simp
-    · have := hpre.length_le
-      simp at hle; omega
 
 end RgVerif.Searcher
